@@ -1,2 +1,31 @@
-(* C17.  Theorems are added here as they are proved. *)
-From PJ.Model Require Import Base.
+(* C17 -- arbitrary bytes cannot crash, hang or balloon the parser (the part a model can carry:
+   every model function is a terminating Gallina function by construction; tables are capped;
+   output is bounded by input). *)
+From PJ.Model Require Import Base Lookup Terms Encoder Streams Decoder.
+From PJ.Proofs Require Import DecoderProofs.
+
+Theorem C17_tables_capped :
+  forall (po : poptions) (st : dstate),
+    decoder_new po = Ok st ->
+    nlen (d_data (ds_names st)) <= MAX_LOOKUP_SIZE /\ nlen (d_data (ds_prefixes st)) <= MAX_LOOKUP_SIZE /\
+    nlen (d_data (ds_datatypes st)) <= MAX_LOOKUP_SIZE.
+Proof. exact decoder_tables_capped. Qed.
+Print Assumptions C17_tables_capped.
+
+Theorem C17_declared_sizes_refused_before_allocation :
+  forall po : poptions,
+    MAX_LOOKUP_SIZE < po_maxn po \/ MAX_LOOKUP_SIZE < po_maxp po \/ MAX_LOOKUP_SIZE < po_maxd po ->
+    exists e, decoder_new po = Err e.
+Proof. exact decoder_refuses_large. Qed.
+Print Assumptions C17_declared_sizes_refused_before_allocation.
+
+Theorem C17_tables_never_grow :
+  forall (id : N) (v : str) (d d' : @ldec str), assign_entry id v d = Some d' -> length (d_data d') = length (d_data d).
+Proof. exact assign_keeps_size. Qed.
+Print Assumptions C17_tables_never_grow.
+
+Theorem C17_no_amplification :
+  forall (ig : integ) (ak : adapter_kind) (po : poptions) (rows : list row) (st : dstate),
+    let '(_, evs, _) := decode_rows ig ak po rows st in (length evs <= length rows)%nat.
+Proof. exact no_amplification. Qed.
+Print Assumptions C17_no_amplification.
